@@ -11,7 +11,7 @@
   * `registry_roundtrip`      hence the round trip holds for every registered class
   * `encode_declaration_order`, `uint_little_endian`, `bitfield_lsb_first`,
     `bitfield_bytes_little_endian`, `bitfield_members_independent`     the wire format
-  * `registry_paired`, `cmdKey_injective`    request/response pairing
+  * `registry_paired`, `registry_exactly_one_counterpart`, `cmdKey_injective`    request/response pairing
 -/
 import PyIpmi.Lemmas.Codec
 import PyIpmi.Gen.Registry
@@ -161,14 +161,15 @@ and group extension and the request's network function plus one, the command ids
 increase from pair to pair, and a class is named `…Req` exactly if its netfn is even.
 So every request has exactly one response counterpart and vice versa, and no id is
 registered twice. -/
+def pairOk (prev : Option Nat) (a b : MsgSpec) : Bool :=
+  inRange a && inRange b
+  && decide (a.netfn % 2 = 0) && decide (b.netfn = a.netfn + 1)
+  && decide (b.cmd = a.cmd) && decide (b.group = a.group)
+  && a.isReq && !b.isReq
+  && (match prev with | none => true | some k => decide (k < cmdKey a))
+
 def pairedFrom (prev : Option Nat) : List MsgSpec → Bool
-  | a :: b :: rest =>
-    inRange a && inRange b
-    && decide (a.netfn % 2 = 0) && decide (b.netfn = a.netfn + 1)
-    && decide (b.cmd = a.cmd) && decide (b.group = a.group)
-    && a.isReq && !b.isReq
-    && (match prev with | none => true | some k => decide (k < cmdKey a))
-    && pairedFrom (some (cmdKey a)) rest
+  | a :: b :: rest => pairOk prev a b && pairedFrom (some (cmdKey a)) rest
   | [] => true
   | [_] => false
 
@@ -190,6 +191,104 @@ theorem cmdKey_injective (a b : MsgSpec) (ha : inRange a = true) (hb : inRange b
   · have h1 := ha.2; have h2 := hb.2; simp at h1 h2
     refine ⟨by omega, by omega, ?_⟩
     congr 1; omega
+
+/-- request ↦ netfn + 1, response ↦ netfn − 1 -/
+def counterpartNetfn (nf : Nat) : Nat := if nf % 2 = 0 then nf + 1 else nf - 1
+
+/-- `r` is registered under `m`'s command and group extension with the counterpart network
+function (request ↦ netfn + 1, response ↦ netfn − 1) -/
+def isCounterpart (m r : MsgSpec) : Bool :=
+  decide (r.netfn = counterpartNetfn m.netfn) && decide (r.cmd = m.cmd) && decide (r.group = m.group)
+
+theorem counterpart_key {m r : MsgSpec} (h : isCounterpart m r = true) : cmdKey r = cmdKey m := by
+  unfold isCounterpart at h
+  simp only [Bool.and_eq_true, decide_eq_true_eq] at h
+  obtain ⟨⟨h1, h2⟩, h3⟩ := h
+  have hn : r.netfn / 2 = m.netfn / 2 := by
+    rw [h1]; unfold counterpartNetfn; split <;> omega
+  unfold cmdKey
+  rw [hn, h2, h3]
+
+theorem pairedFrom_above : ∀ (prev : Option Nat) (l : List MsgSpec), pairedFrom prev l = true →
+    ∀ k, prev = some k → ∀ x ∈ l, k < cmdKey x
+  | _, [], _, _, _, x, hx => by cases hx
+  | _, [_], h, _, _, _, _ => by simp [pairedFrom] at h
+  | prev, a :: b :: rest, h, k, hk, x, hx => by
+    simp only [pairedFrom, Bool.and_eq_true] at h
+    obtain ⟨hp, hrest⟩ := h
+    unfold pairOk at hp
+    simp only [Bool.and_eq_true, decide_eq_true_eq] at hp
+    obtain ⟨⟨⟨⟨⟨⟨⟨⟨_, _⟩, hae⟩, hbn⟩, hbc⟩, hbg⟩, _⟩, _⟩, hprev⟩ := hp
+    subst hk
+    simp only [decide_eq_true_eq] at hprev
+    have hab : cmdKey b = cmdKey a := by
+      have hn : b.netfn / 2 = a.netfn / 2 := by omega
+      unfold cmdKey; rw [hn, hbc, hbg]
+    simp only [List.mem_cons] at hx
+    rcases hx with rfl | rfl | hx
+    · exact hprev
+    · rw [hab]; exact hprev
+    · have := pairedFrom_above (some (cmdKey a)) rest hrest (cmdKey a) rfl x hx
+      omega
+
+theorem no_counterpart_above (m : MsgSpec) (l : List MsgSpec) (h : ∀ x ∈ l, cmdKey m < cmdKey x) :
+    l.filter (isCounterpart m) = [] := by
+  rw [List.filter_eq_nil_iff]
+  intro x hx hc
+  have := counterpart_key hc
+  have := h x hx
+  omega
+
+/-- **Pairing, as the property states it**: in a registry accepted by `pairedOk`, every class
+has exactly one counterpart (same command and group extension, network function ± 1). -/
+theorem paired_count : ∀ (prev : Option Nat) (l : List MsgSpec), pairedFrom prev l = true →
+    ∀ m ∈ l, (l.filter (isCounterpart m)).length = 1
+  | _, [], _, m, hm => by cases hm
+  | _, [_], h, _, _ => by simp [pairedFrom] at h
+  | prev, a :: b :: rest, h, m, hm => by
+    simp only [pairedFrom, Bool.and_eq_true] at h
+    obtain ⟨hp, hrest⟩ := h
+    unfold pairOk at hp
+    simp only [Bool.and_eq_true, decide_eq_true_eq] at hp
+    obtain ⟨⟨⟨⟨⟨⟨⟨⟨_, _⟩, hae⟩, hbn⟩, hbc⟩, hbg⟩, _⟩, _⟩, _⟩ := hp
+    have hab : cmdKey b = cmdKey a := by
+      have hn : b.netfn / 2 = a.netfn / 2 := by omega
+      unfold cmdKey; rw [hn, hbc, hbg]
+    have habove := pairedFrom_above (some (cmdKey a)) rest hrest (cmdKey a) rfl
+    have haa : isCounterpart a a = false := by
+      unfold isCounterpart counterpartNetfn; simp [hae]
+    have hbb : isCounterpart b b = false := by
+      unfold isCounterpart counterpartNetfn
+      have : ¬ (b.netfn % 2 = 0) := by omega
+      simp [this]; omega
+    have hab' : isCounterpart a b = true := by
+      unfold isCounterpart counterpartNetfn; simp [hae, hbn, hbc, hbg]
+    have hba' : isCounterpart b a = true := by
+      unfold isCounterpart counterpartNetfn
+      have : ¬ (b.netfn % 2 = 0) := by omega
+      simp [hbn, hbc, hbg]
+      omega
+    simp only [List.mem_cons] at hm
+    rcases hm with rfl | rfl | hm
+    · have := no_counterpart_above m rest habove
+      simp [haa, hab', this]
+    · have := no_counterpart_above m rest (by intro x hx; rw [hab]; exact habove x hx)
+      simp [hbb, hba', this]
+    · have hk := habove m hm
+      have hma : isCounterpart m a = false := by
+        cases hc : isCounterpart m a with
+        | false => rfl
+        | true => have := counterpart_key hc; omega
+      have hmb : isCounterpart m b = false := by
+        cases hc : isCounterpart m b with
+        | false => rfl
+        | true => have := counterpart_key hc; omega
+      have := paired_count (some (cmdKey a)) rest hrest m hm
+      simp [hma, hmb, this]
+
+theorem registry_exactly_one_counterpart (m : MsgSpec) (hm : m ∈ PyIpmi.Gen.Registry.all) :
+    (PyIpmi.Gen.Registry.all.filter (isCounterpart m)).length = 1 :=
+  paired_count none _ registry_paired m hm
 
 /-! ### non-vacuity: concrete, non-trivial objects meeting the hypotheses -/
 
